@@ -633,6 +633,16 @@ def pareto_requests(cells):
 # --------------------------------------------------------------------------- search level
 
 
+EVAL_KINDS = ["fresh", "callable", "callable-sync", "reuse"]
+
+
+def _searches_of(case):
+    """histories over Search objects; older cases only have `calls` (one Search, fresh evaluator)"""
+    if "searches" in case:
+        return case["searches"]
+    return [{"evaluator": "fresh", "calls": case["calls"]}]
+
+
 def gen_search_case(rng, force=None):
     m = rng.choice([1, 1, 2, 2, 3])
     n = rng.randint(1, 8)
@@ -646,76 +656,122 @@ def gen_search_case(rng, force=None):
             obj, kind = gen_objective(rng, m, 0.0, kinds)
         raw, form = wrap_form(rng, obj)
         outs.append(enc_typed(raw))
-    ncalls = rng.choice([1, 1, 1, 2, 3])
-    calls = [rng.randint(1, max(1, n // ncalls + 1)) for _ in range(ncalls)]
-    return {"level": "search", "cls": "RandomSearch", "m": m, "outs": outs, "calls": calls,
+    nsearch = rng.choice([1, 1, 2, 2, 3])
+    searches = []
+    for i in range(nsearch):
+        ev = "fresh" if i == 0 and rng.random() < 0.7 else rng.choice(EVAL_KINDS if i > 0 else EVAL_KINDS[:3])
+        if i > 0 and rng.random() < 0.4:
+            ev = "reuse"
+        ncalls = rng.choice([1, 1, 1, 2] if nsearch > 1 else [1, 1, 1, 2, 3])
+        searches.append({"evaluator": ev, "calls": [rng.randint(1, max(1, n // (ncalls * nsearch) + 1)) for _ in range(ncalls)]})
+    return {"level": "search", "cls": "RandomSearch", "m": m, "outs": outs, "searches": searches,
             "num_workers": rng.choice([1, 1, 2, 3, 4]), "seed": rng.randint(0, 10**6),
             "profile": rng.random() < 0.15}
 
 
 def run_search_real(case):
+    """A history over Search objects on one log_dir.  Observed without private attributes: the
+    public `Evaluator.dump_jobs_done_to_csv` is wrapped at class level (which evaluator instance
+    dumps which jobs with which flush), np.argsort of the Pareto step, and after every search()
+    call the returned DataFrame and results.csv."""
+    import deephyper.skopt.moo._pf as pf
     from deephyper.evaluator import Evaluator, profile
     from deephyper.hpo import HpProblem, RandomSearch
 
     tmp = tempfile.mkdtemp(prefix="c04s_")
-    try:
-        outs = case["outs"]
-        log = {}  # job id -> what the run-function saw / returned
-        counter = itertools.count()
+    outs = case["outs"]
+    log = {}  # (evaluator index, job id) -> what the run-function saw / returned
+    counter = itertools.count()
+    lock = __import__("threading").Lock()
 
-        async def run(job):
-            k = next(counter)
+    def make_run(eidx, sync):
+        def body(job):
+            with lock:
+                k = next(counter)
             raw = dec(outs[k % len(outs)])
-            log[int(str(job.id).split(".")[-1])] = {"args": dict(job.parameters), "raw_wire": outs[k % len(outs)], "k": k}
+            log[(eidx, int(str(job.id).split(".")[-1]))] = {"args": dict(job.parameters), "raw_wire": outs[k % len(outs)], "k": k}
             return raw
 
+        if sync:
+            def run(job):
+                return body(job)
+        else:
+            async def run(job):
+                return body(job)
         fn = profile(run) if case.get("profile") else run
+        fn._eidx = eidx
+        return fn
+
+    events = []  # ("new_search", model choice) | ("dump", eidx, [job snapshots], flush) | ("call_end", {...})
+    seen, instances = set(), {}
+    orig = Evaluator.dump_jobs_done_to_csv
+
+    def spy(self, log_dir=".", filename="results.csv", flush=False):
+        eidx = getattr(self.run_function, "_eidx", None)
+        instances[eidx] = self
+        new = []
+        for j in self.jobs_done:
+            if id(j) not in seen:
+                seen.add(id(j))
+                jid = int(str(j.id).split(".")[-1])
+                new.append({"id": jid, "eidx": eidx, "status": j.status.name, "meta": [[k, enc(v)] for k, v in j.metadata.items()],
+                            "args": enc_typed(dict(j.args)), "objective": enc(j.objective)})
+        events.append(("dump", eidx, new, bool(flush)))
+        return orig(self, log_dir=log_dir, filename=filename, flush=flush)
+
+    npspy = _NpSpy()
+    saved_np = pf.np
+    Evaluator.dump_jobs_done_to_csv = spy
+    pf.np = npspy
+    keep = []  # jobs must stay alive: `seen` is keyed by id()
+    err = None
+    try:
         p = HpProblem()
         p.add_hyperparameter((0.0, 1.0), "x")
         p.add_hyperparameter((1, 10), "k")
         p.add_hyperparameter(["a", "b", "c d"], "c")
-        ev = Evaluator.create(fn, method="serial", method_kwargs={"num_workers": case["num_workers"]})
-        s = RandomSearch(p, ev, random_state=case["seed"], log_dir=tmp)
-        batches = []  # (list of job snapshots appended since last dump, flush)
-        seen = set()
-        orig = ev.dump_jobs_done_to_csv
-
-        def spy(log_dir=".", filename="results.csv", flush=False):
-            new = []
-            for j in ev.jobs_done:
-                if id(j) not in seen:
-                    seen.add(id(j))
-                    jid = int(str(j.id).split(".")[-1])
-                    new.append({"id": jid, "status": j.status.name, "meta": [[k, enc(v)] for k, v in j.metadata.items()],
-                                "args": enc_typed(dict(j.args)), "objective": enc(j.objective)})
-            batches.append((new, bool(flush)))
-            return orig(log_dir=log_dir, filename=filename, flush=flush)
-
-        ev.dump_jobs_done_to_csv = spy
-        import deephyper.skopt.moo._pf as pf
-
-        npspy = _NpSpy()
-        saved = pf.np
-        pf.np = npspy
-        err, dfs = None, []
-        try:
-            for c in case["calls"]:
+        prev_eidx, n_eval = None, 0
+        for si, spec in enumerate(_searches_of(case)):
+            kind = spec["evaluator"]
+            if kind == "reuse" and (prev_eidx is None or prev_eidx not in instances):
+                kind = "fresh"
+            if kind == "reuse":
+                eidx, ev = prev_eidx, instances[prev_eidx]
+            else:
+                eidx = n_eval
+                n_eval += 1
+                fn = make_run(eidx, sync=(kind == "callable-sync"))
+                ev = fn if kind.startswith("callable") else Evaluator.create(fn, method="serial", method_kwargs={"num_workers": case["num_workers"]})
+            events.append(("new_search", "reuse" if kind == "reuse" else "fresh", kind))
+            try:
+                s = RandomSearch(p, ev, random_state=case["seed"] + si, log_dir=tmp)
+            except Exception as e:
+                err = f"{type(e).__name__}: {str(e)[:100]}"
+                events.append(("call_end", {"si": si, "ci": -1, "err": err, "cells": None, "df": None, "order": []}))
+                break
+            keep.append(s)
+            prev_eidx = eidx
+            for ci, c in enumerate(spec["calls"]):
+                norders = len(npspy.orders)
+                df = None
                 try:
                     df = s.search(max_evals=c)
                 except Exception as e:
                     err = f"{type(e).__name__}: {str(e)[:100]}"
+                cells = read_csv_cells(os.path.join(tmp, "results.csv"))
+                df_cells = None
+                if df is not None:
+                    df_cells = [list(df.columns)] + [[_df_text(v) for v in row] for row in df.itertuples(index=False, name=None)]
+                events.append(("call_end", {"si": si, "ci": ci, "err": err, "cells": cells, "df": df_cells,
+                                            "order": npspy.orders[-1] if len(npspy.orders) > norders else []}))
+                if err is not None:
                     break
-                dfs.append(df)
-        finally:
-            pf.np = saved
-        cells = read_csv_cells(os.path.join(tmp, "results.csv"))
-        df_cells = None
-        if dfs and dfs[-1] is not None:
-            df = dfs[-1]
-            df_cells = [list(df.columns)] + [[_df_text(v) for v in row] for row in df.itertuples(index=False, name=None)]
-        return {"err": err, "log": log, "batches": batches, "cells": cells, "df": df_cells,
-                "order": npspy.orders[-1] if npspy.orders else [], "ncalls_done": len(dfs)}
+            if err is not None:
+                break
+        return {"err": err, "log": log, "events": events}
     finally:
+        Evaluator.dump_jobs_done_to_csv = orig
+        pf.np = saved_np
         shutil.rmtree(tmp, ignore_errors=True)
 
 
@@ -731,43 +787,93 @@ def _df_text(v):
     return str(v)
 
 
+def _model_out(case, lg, meta):
+    """the value `set_output` received: the returned value, wrapped by @profile when it is used"""
+    raw = lg["raw_wire"]
+    if not case.get("profile"):
+        return raw
+    md = dict((k, v) for k, v in meta)
+    prof = [["timestamp_start", md.get("timestamp_start", {"n": "0/1"})], ["timestamp_end", md.get("timestamp_end", {"n": "0/1"})]]
+    if "d" in raw and any(k == "output" for k, _ in raw["d"]):
+        d = [[k, v] for k, v in raw["d"]]
+        if not any(k == "metadata" for k, _ in d):
+            d.append(["metadata", {"d": []}])
+        d = [[k, ({"d": v["d"] + prof} if k == "metadata" else v)] for k, v in d]
+        return {"d": d}
+    return {"d": [["output", raw], ["metadata", {"d": prof}]]}
+
+
 def search_request(case, obs):
-    """model input: jobs in the order they were handed to the dump, with what the run-function returned"""
-    jobs, ops = [], []
-    for new, fl in obs["batches"]:
-        for j in new:
-            lg = obs["log"].get(j["id"])
-            if lg is None:
-                raise HarnessError(f"job {j['id']} dumped but never seen by the run-function")
-            raw = lg["raw_wire"]
-            meta = j["meta"]
-            tg = dict((k, v) for k, v in meta).get("timestamp_gather", {"n": "0/1"})
-            ts = [[k, v] for k, v in meta if k == "timestamp_submit"]
-            out = raw
-            if case.get("profile"):
-                # the decorator wraps the value: {"output": raw, "metadata": {timestamp_start, timestamp_end}}
-                md = dict((k, v) for k, v in meta)
-                prof = [["timestamp_start", md.get("timestamp_start", {"n": "0/1"})], ["timestamp_end", md.get("timestamp_end", {"n": "0/1"})]]
-                if "d" in raw and any(k == "output" for k, _ in raw["d"]):
-                    d = [[k, v] for k, v in raw["d"]]
-                    if not any(k == "metadata" for k, _ in d):
-                        d.append(["metadata", {"d": []}])
-                    d = [[k, ({"d": v["d"] + prof} if k == "metadata" else v)] for k, v in d]
-                    out = {"d": d}
-                else:
-                    out = {"d": [["output", raw], ["metadata", {"d": prof}]]}
-            jobs.append({"id": j["id"], "args": j["args"]["d"], "status": "RUNNING", "meta0": ts, "out": out, "tg": tg})
-        ops.append([len(new), fl])
-    return {"op": "scenario", "preset": None, "jobs": jobs, "ops": ops, "order": obs["order"]}
+    """model input: Search constructions, dumps (jobs in the order they were handed to the dump, with
+    what the run-function returned) and the Pareto step at the end of every search() call"""
+    jobs, ops, marks = [], [], []
+    for ev in obs["events"]:
+        if ev[0] == "new_search":
+            ops.append({"new_search": ev[1]})
+        elif ev[0] == "dump":
+            _, eidx, new, fl = ev
+            for j in new:
+                lg = obs["log"].get((eidx, j["id"]))
+                if lg is None:
+                    raise HarnessError(f"job {j['id']} dumped but never seen by the run-function")
+                meta = j["meta"]
+                tg = dict((k, v) for k, v in meta).get("timestamp_gather", {"n": "0/1"})
+                ts = [[k, v] for k, v in meta if k == "timestamp_submit"]
+                jobs.append({"id": j["id"], "args": j["args"]["d"], "status": "RUNNING", "meta0": ts,
+                             "out": _model_out(case, lg, meta), "tg": tg})
+            ops.append([len(new), fl])
+        else:
+            info = ev[1]
+            if info["err"] is None and ops and isinstance(ops[-1], list):
+                ops[-1] = [ops[-1][0], ops[-1][1], info["order"]]
+                marks.append(len(ops) - 1)
+            else:
+                marks.append(None)
+    return {"op": "scenario", "preset": None, "jobs": jobs, "ops": ops, "order": []}, marks
 
 
-def compare_search(ck, case, obs, rep):
+def _compare_table(cells, tbl, par):
     bad = []
-    if obs["err"] is not None:
-        return bad  # handled by the oracle
+    if tbl["header"] is None:
+        if cells:
+            bad.append({"table": "model wrote nothing", "impl": cells[:2]})
+        return bad
+    if not cells:
+        return [{"table": "impl wrote nothing", "model": tbl["header"]}]
+    flags = par is not None and par.get("kind") == "flags"
+    want_hdr = tbl["header"] + (["pareto_efficient"] if flags else [])
+    if cells[0] != want_hdr:
+        return [{"impl_header": cells[0], "model_header": want_hdr}]
+    if len(cells) - 1 != len(tbl["rows"]):
+        return [{"impl_lines": len(cells) - 1, "model_lines": len(tbl["rows"])}]
+    tol = REL_TOL if flags else None  # the pareto step rewrites the file through pandas
+    for r, (lo, lm) in enumerate(zip(cells[1:], tbl["rows"])):
+        body = lo[:-1] if flags else lo
+        if len(body) != len(lm) or not all(cell_matches(t, c, tol) for t, c in zip(body, lm)):
+            bad.append({"line": r, "impl": lo, "model": lm})
+    if flags and not bad:
+        # pandas' read_csv/to_csv round trip of an earlier Pareto rewrite may move a number by an ulp
+        # (allowed: 1e-12): two equal objective vectors are then no longer equal in the file and
+        # the flags legitimately differ from the model's.  The column is compared with the model only
+        # when every objective cell of the file is exactly the model's; otherwise it is left to the
+        # verified checker, which reads the file's own numbers.
+        ocols = [i for i, c in enumerate(tbl["header"]) if c.startswith("objective")]
+        exact = all(cell_matches(lo[i], lm[i]) for lo, lm in zip(cells[1:], tbl["rows"]) for i in ocols)
+        got = [row[-1] == "True" for row in cells[1:]]
+        if exact and got != par["flags"]:
+            bad.append({"pareto_flags": got, "model": par["flags"]})
+        elif not exact:
+            bad.append(None)  # marker: flags not compared
+    return bad
+
+
+def compare_search(ck, case, obs, rep, marks):
+    bad = []
     k = 0
-    for new, fl in obs["batches"]:
-        for j in new:
+    for ev in obs["events"]:
+        if ev[0] != "dump":
+            continue
+        for j in ev[2]:
             mj = rep["jobs"][k]
             k += 1
             if mj["err"] is not None:
@@ -779,32 +885,19 @@ def compare_search(ck, case, obs, rep):
                 bad.append({"job": j["id"], "impl_meta": j["meta"], "model_meta": mj["meta"]})
     for sm in rep["steps"]:
         ck.count("branch:" + sm["branch"])
-    tbl, par = rep["table"], rep["pareto"]
-    cells = obs["cells"]
-    if tbl["header"] is None:
-        if cells:
-            bad.append({"table": "model wrote nothing", "impl": cells[:2]})
-        return bad
-    if not cells:
-        bad.append({"table": "impl wrote nothing", "model": tbl["header"]})
-        return bad
-    want_hdr = tbl["header"] + (["pareto_efficient"] if par["kind"] == "flags" else [])
-    if cells[0] != want_hdr:
-        bad.append({"impl_header": cells[0], "model_header": want_hdr})
-        return bad
-    if len(cells) - 1 != len(tbl["rows"]):
-        bad.append({"impl_lines": len(cells) - 1, "model_lines": len(tbl["rows"])})
-        return bad
-    tol = REL_TOL if par["kind"] == "flags" else None  # the pareto step rewrites the file through pandas
-    for r, (lo, lm) in enumerate(zip(cells[1:], tbl["rows"])):
-        body = lo[:-1] if par["kind"] == "flags" else lo
-        if len(body) != len(lm) or not all(cell_matches(t, c, tol) for t, c in zip(body, lm)):
-            bad.append({"line": r, "impl": lo, "model": lm})
-    if par["kind"] == "flags":
-        flags = [row[-1] == "True" for row in cells[1:]]
-        if flags != par["flags"]:
-            bad.append({"pareto_flags": flags, "model": par["flags"]})
-    ck.count("pareto:" + par["kind"])
+    ends = [ev[1] for ev in obs["events"] if ev[0] == "call_end"]
+    for info, mark in zip(ends, marks):
+        if mark is None or info["err"] is not None:
+            continue
+        step = rep["steps"][mark]
+        b = _compare_table(info["cells"], step["table"], step.get("pareto"))
+        if b == [None]:
+            ck.count("pareto:flags-not-compared(csv-round-trip-drift)")
+            b = []
+        if b:
+            bad.append({"search": info["si"], "call": info["ci"], "diff": b[:3]})
+            break
+        ck.count("pareto:" + (step.get("pareto") or {}).get("kind", "none"))
     return bad
 
 
@@ -825,14 +918,10 @@ def _finished_unit(case, obs):
     return fin
 
 
-def _finished_search(case, obs):
-    fin = []
-    for new, _ in obs["batches"]:
-        for j in new:
-            lg = obs["log"][j["id"]]
-            raw = dec(lg["raw_wire"])
-            fin.append({"id": j["id"], "args": lg["args"], "raw": raw, "status": "DONE", "meta": returned_meta(raw)})
-    return fin
+def _job_record(case, obs, eidx, j):
+    lg = obs["log"][(eidx, j["id"])]
+    raw = dec(lg["raw_wire"])
+    return {"id": j["id"], "args": lg["args"], "raw": raw, "status": "DONE", "meta": returned_meta(raw)}
 
 
 def _unit_objs(case):
@@ -882,40 +971,91 @@ def check_unit(ck, d, case, collect):
 
 def check_search(ck, d, case, collect):
     obs = run_search_real(case)
-    fin = _finished_search(case, obs) if obs["err"] is None or obs["batches"] else []
-    objs = [expected_objective(f["raw"]) for f in fin]
-    # was there a flush (end of an earlier call) while only failures had finished?
-    midflush = False
-    seen = 0
-    for b, (new, fl) in enumerate(obs["batches"][:-1]):
-        seen += len(new)
-        if fl and seen and all(is_failure_obj(o) for o in objs[:seen]) and not all(is_failure_obj(o) for o in objs):
-            midflush = True
-    tags = classify(objs, case["m"], midflush)
-    nontrivial = len(fin) >= 2 and any(is_failure_obj(o) for o in objs) and not all(is_failure_obj(o) for o in objs)
+    searches = _searches_of(case)
+    viol, cur, objs_all, viol_objs = [], [], [], []
+    midflush, reused, kinds_used = False, False, []
+    calls = []  # (cells, fin) per finished search() call: for the verified Pareto checker
+    for ev in obs["events"]:
+        if ev[0] == "new_search":
+            cur = []  # the table of a new Search object holds its own evaluations only
+            kinds_used.append(ev[2])
+        elif ev[0] == "dump":
+            _, eidx, new, fl = ev
+            cur += [_job_record(case, obs, eidx, j) for j in new]
+            objs = [expected_objective(f["raw"]) for f in cur]
+            objs_all += [expected_objective(_job_record(case, obs, eidx, j)["raw"]) for j in new]
+        else:
+            info = ev[1]
+            if viol:
+                continue
+            where = {"search_object": info["si"], "call": info["ci"], "evaluator": kinds_used[-1] if kinds_used else "?"}
+            if info["err"] is not None:
+                viol.append(("raises", dict(where, error=info["err"])))
+                viol_objs = [expected_objective(f["raw"]) for f in cur]
+                reused = bool(kinds_used) and kinds_used[-1] == "reuse"
+                continue
+            for c, dt in oracle_table(info["cells"], cur, case["m"]):
+                viol.append((c, dict(where, detail=dt)))
+            if info["cells"] and info["df"] is not None:
+                # the returned DataFrame is the file
+                if info["df"][0] != info["cells"][0] or len(info["df"]) != len(info["cells"]):
+                    viol.append(("dataframe-differs-from-file", dict(where, df=info["df"][0], file=info["cells"][0])))
+                else:
+                    for a, b in zip(info["df"][1:], info["cells"][1:]):
+                        if any(x != y and not _numeric_close(x, y) for x, y in zip(a, b)):
+                            viol.append(("dataframe-differs-from-file", dict(where, df=a, file=b)))
+                            break
+            elif cur and info["df"] is None:
+                viol.append(("no-dataframe-returned", where))
+            calls.append((info["cells"], list(cur)))
+            if viol:
+                # classification of the failing history: the evaluations of this Search object
+                viol_objs = [expected_objective(f["raw"]) for f in cur]
+                if kinds_used and kinds_used[-1] == "reuse":
+                    reused = True
+    # a flush (end of a search() call) while only failures had finished for the current Search object
+    cur_objs, later_success = [], False
+    for ev in obs["events"]:
+        if ev[0] == "new_search":
+            cur_objs = []
+        elif ev[0] == "dump":
+            cur_objs += [expected_objective(_job_record(case, obs, ev[1], j)["raw"]) for j in ev[2]]
+        elif cur_objs and all(is_failure_obj(o) for o in cur_objs):
+            later_success = True  # candidate: decided below
+    if later_success and any(not is_failure_obj(o) for o in objs_all) and any(len(sp["calls"]) > 1 for sp in searches):
+        midflush = _flush_before_success(case, obs)
+    tags = classify(viol_objs if viol else objs_all, case["m"], midflush)
+    if reused:
+        tags += ",reused-evaluator"
+    nontrivial = len(objs_all) >= 2 and any(is_failure_obj(o) for o in objs_all) and not all(is_failure_obj(o) for o in objs_all)
     ck.case(case, nontrivial=nontrivial)
     ck.count("search:" + tags)
-    ck.count(f"search:calls={len(case['calls'])}")
+    ck.count(f"search:objects={len(searches)}")
+    for sp, kd in zip(searches, kinds_used):
+        ck.count("search:evaluator=" + kd)
+        ck.count(f"search:calls={len(sp['calls'])}")
     ck.count(f"search:workers={case['num_workers']}")
-    ck.count(f"search:finished={min(len(fin), 9)}")
-    viol = []
-    if obs["err"] is not None:
-        viol.append(("raises", obs["err"]))
-    else:
-        viol += oracle_table(obs["cells"], fin, case["m"])
-        if obs["cells"] and obs["df"] is not None:
-            # the returned DataFrame is the file
-            if obs["df"][0] != obs["cells"][0] or len(obs["df"]) != len(obs["cells"]):
-                viol.append(("dataframe-differs-from-file", {"df": obs["df"][0], "file": obs["cells"][0]}))
-            else:
-                for a, b in zip(obs["df"][1:], obs["cells"][1:]):
-                    for x, y in zip(a, b):
-                        if x != y and not (_numeric_close(x, y)):
-                            viol.append(("dataframe-differs-from-file", {"df": a, "file": b}))
-                            break
-        # what the run-function received is what is in the table (args of the job == parameters seen)
+    ck.count(f"search:finished={min(len(objs_all), 9)}")
+    obs["calls"] = calls
     collect.append(("search", case, obs, tags, viol))
     return obs
+
+
+def _flush_before_success(case, obs):
+    """within one Search object: a search() call ended (flush) while only failures had finished,
+    and a later call of the same object saw a success"""
+    cur, flushed_all_failed = [], False
+    for ev in obs["events"]:
+        if ev[0] == "new_search":
+            cur, flushed_all_failed = [], False
+        elif ev[0] == "dump":
+            new = [expected_objective(_job_record(case, obs, ev[1], j)["raw"]) for j in ev[2]]
+            if flushed_all_failed and any(not is_failure_obj(o) for o in new):
+                return True
+            cur += new
+        elif cur and all(is_failure_obj(o) for o in cur):
+            flushed_all_failed = True
+    return False
 
 
 def _numeric_close(x, y):
@@ -941,22 +1081,25 @@ def _process(ck, collect):
             idx.append(n)
             cells = obs["final"]
         else:
-            if obs["err"] is None:
-                reqs.append(search_request(case, obs))
-                idx.append(n)
-            cells = obs["cells"]
-        if cells and not any(c in ("raises", "pareto-step-raises") for c, _ in viol):
-            pr, bad = pareto_requests(cells)
-            if pr == "missing":
-                viol.append(("pareto-column-missing", cells[0]))
-            elif pr == "non-numeric":
-                viol.append(("pareto-non-numeric-success-cell", cells[0]))
-            elif pr is not None:
-                if bad:
-                    viol.append(("pareto-failed-row-flagged", None))
-                if pr["pts"]:
-                    preqs.append(pr)
-                    pidx.append(n)
+            req, marks = search_request(case, obs)
+            obs["marks"] = marks
+            reqs.append(req)
+            idx.append(n)
+            cells = None
+        tables = [cells] if level == "unit" else [c for c, _ in obs.get("calls", [])]
+        for cells in tables:
+            if cells and not any(c in ("raises", "pareto-step-raises", "no-job_id-column", "objective-columns") for c, _ in viol):
+                pr, bad = pareto_requests(cells)
+                if pr == "missing":
+                    viol.append(("pareto-column-missing", cells[0]))
+                elif pr == "non-numeric":
+                    viol.append(("pareto-non-numeric-success-cell", cells[0]))
+                elif pr is not None:
+                    if bad:
+                        viol.append(("pareto-failed-row-flagged", None))
+                    if pr["pts"]:
+                        preqs.append(pr)
+                        pidx.append(n)
     with ck.driver() as d:
         reps = d.ask_all(reqs)
         preps = d.ask_all(preqs)
@@ -965,7 +1108,7 @@ def _process(ck, collect):
             collect[n][4].append(("pareto-not-exact", None))
     for n, rep in zip(idx, reps):
         level, case, obs, tags, viol = collect[n]
-        bad = compare_unit(ck, case, obs, rep) if level == "unit" else compare_search(ck, case, obs, rep)
+        bad = compare_unit(ck, case, obs, rep) if level == "unit" else compare_search(ck, case, obs, rep, obs["marks"])
         if bad:
             ck.mismatch(_case_out(case), bad[:4])
     for level, case, obs, tags, viol in collect:
@@ -1059,39 +1202,53 @@ def _shrink_delete(case, still_fails):
                             cur, changed = cand, True
                             break
         else:
+            if "searches" not in cur:
+                cur = dict(cur, searches=_searches_of(cur))
+                cur.pop("calls", None)
             n = len(cur["outs"])
+            done = False
             for i in range(n):
                 if n <= 1:
                     break
                 cand = dict(cur, outs=cur["outs"][:i] + cur["outs"][i + 1:])
-                cand["calls"] = [min(c, len(cand["outs"])) for c in cand["calls"]]
+                if still_fails(cand):
+                    cur, changed, done = cand, True, True
+                    break
+            if done:
+                continue
+            ss = cur["searches"]
+            # drop a Search object, merge / shorten calls, simplify evaluator kinds
+            cands = []
+            for i in range(len(ss)):
+                if len(ss) > 1:
+                    rest = [dict(x) for x in ss[:i] + ss[i + 1:]]
+                    if rest[0]["evaluator"] == "reuse":
+                        rest[0]["evaluator"] = "fresh"
+                    cands.append(dict(cur, searches=rest))
+                if len(ss[i]["calls"]) > 1:
+                    cands.append(dict(cur, searches=ss[:i] + [dict(ss[i], calls=[sum(ss[i]["calls"])])] + ss[i + 1:]))
+                    cands.append(dict(cur, searches=ss[:i] + [dict(ss[i], calls=ss[i]["calls"][:-1])] + ss[i + 1:]))
+                for k, c in enumerate(ss[i]["calls"]):
+                    if c > 1:
+                        calls = ss[i]["calls"][:k] + [c - 1] + ss[i]["calls"][k + 1:]
+                        cands.append(dict(cur, searches=ss[:i] + [dict(ss[i], calls=calls)] + ss[i + 1:]))
+                if ss[i]["evaluator"] not in ("fresh", "reuse"):
+                    cands.append(dict(cur, searches=ss[:i] + [dict(ss[i], evaluator="fresh")] + ss[i + 1:]))
+                if ss[i]["evaluator"] == "reuse":
+                    cands.append(dict(cur, searches=ss[:i] + [dict(ss[i], evaluator="fresh")] + ss[i + 1:]))
+            if cur["num_workers"] > 1:
+                cands.append(dict(cur, num_workers=1))
+            if cur.get("profile"):
+                cands.append(dict(cur, profile=False))
+            for i, w in enumerate(cur["outs"]):
+                raw = dec(w)
+                o = expected_objective(raw)
+                if o is not None and isinstance(raw, dict):
+                    cands.append(dict(cur, outs=cur["outs"][:i] + [enc_typed(o)] + cur["outs"][i + 1:]))
+            for cand in cands:
                 if still_fails(cand):
                     cur, changed = cand, True
                     break
-            else:
-                if len(cur["calls"]) > 1:
-                    cand = dict(cur, calls=[sum(cur["calls"])])
-                    if still_fails(cand):
-                        cur, changed = cand, True
-                        continue
-                if cur["num_workers"] > 1:
-                    cand = dict(cur, num_workers=1)
-                    if still_fails(cand):
-                        cur, changed = cand, True
-                        continue
-                if cur.get("profile"):
-                    cand = dict(cur, profile=False)
-                    if still_fails(cand):
-                        cur, changed = cand, True
-                        continue
-                for i, w in enumerate(cur["outs"]):
-                    raw = dec(w)
-                    o = expected_objective(raw)
-                    if o is not None and isinstance(raw, dict):
-                        cand = dict(cur, outs=cur["outs"][:i] + [enc_typed(o)] + cur["outs"][i + 1:])
-                        if still_fails(cand):
-                            cur, changed = cand, True
-                            break
     return cur
 
 
@@ -1116,8 +1273,10 @@ def _violations_of(case):
 def _pareto_oracle(collect):
     """the pareto clauses that need no Lean call (used while shrinking)"""
     for level, case, obs, tags, viol in collect:
-        cells = obs["final"] if level == "unit" else obs["cells"]
-        if cells and not any(c in ("raises", "pareto-step-raises") for c, _ in viol):
+        tables = [obs["final"]] if level == "unit" else [c for c, _ in obs.get("calls", [])]
+        for cells in tables:
+            if not cells or any(c in ("raises", "pareto-step-raises", "no-job_id-column", "objective-columns") for c, _ in viol):
+                continue
             pr, bad = pareto_requests(cells)
             if pr == "missing":
                 viol.append(("pareto-column-missing", cells[0]))
@@ -1140,7 +1299,8 @@ def corpus_cases():
 def run(ck):
     ck.rule = ("unit: 1-8 constructed HPOJobs (six return forms x success / 'F..' / nan / +-inf / nan-in-tuple, "
                "varying metadata key sets, shuffled finishing order, CANCELLED jobs) dumped in batches of 1-4 with "
-               "hold / flush / mid-run flush / preset num_objective; search: RandomSearch.search() with scripted outputs, "
+               "hold / flush / mid-run flush / preset num_objective; search: histories of 1-3 Search objects (RandomSearch) on one log_dir, each with a fresh "
+               "evaluator / a plain async or sync callable / the previous Search's Evaluator instance, 1-3 search() calls each, scripted outputs, "
                "1-3 calls on one log_dir, 1-4 serial workers, optional @profile; malformed outputs go to the "
                "standardize_output stream; non-trivial = at least 2 finished jobs with both a failure and a success")
     ck.assumptions = [
@@ -1252,4 +1412,8 @@ def replay(ck, case):
     if level == "unit":
         print("  table:", obs["final"])
     else:
-        print("  error:", obs["err"], " table:", obs["cells"])
+        for ev in obs["events"]:
+            if ev[0] == "new_search":
+                print("  new Search object, evaluator:", ev[2])
+            elif ev[0] == "call_end":
+                print(f"  search() call {ev[1]['ci']} of object {ev[1]['si']}: error:", ev[1]["err"], " table:", ev[1]["cells"])
